@@ -5,6 +5,7 @@ import (
 	"github.com/google/uuid"
 	"reflect"
 	"strings"
+	"time"
 
 	"github.com/element-of-surprise/coercion/workflow"
 	"github.com/element-of-surprise/coercion/workflow/builder"
@@ -24,6 +25,25 @@ var builderAlphabet = []bCall{
 }
 
 var builderGroupID = uuid.MustParse("01890000-0000-7000-8000-00000000b111")
+
+// blockArgs varies every field of a block with the position of the call (negative tolerances are the documented
+// "any number may fail"; the builder copies values, judging them is Submit's business): the direct construction
+// copies the same values.
+func blockArgs(n int) builder.BlockArgs {
+	a := builder.BlockArgs{Name: fmt.Sprintf("b%d", n), Descr: "d"}
+	switch n % 4 {
+	case 0:
+		a.Concurrency, a.ToleratedFailures = 2, 1
+	case 1:
+		a.Concurrency, a.ToleratedFailures, a.EntranceDelay = 0, -1, time.Second
+		a.Key = uuid.MustParse("01890000-0000-7000-8000-00000000b001")
+	case 2:
+		a.Concurrency, a.ToleratedFailures, a.EntranceDelay, a.ExitDelay = -1, 0, -time.Second, 2*time.Second
+	case 3:
+		a.Concurrency, a.ToleratedFailures, a.ExitDelay = 5, -3, -2*time.Second
+	}
+	return a
+}
 
 func newAction(n int) *workflow.Action {
 	return &workflow.Action{Name: fmt.Sprintf("a%d", n), Descr: "d", Plugin: "p"}
@@ -54,7 +74,7 @@ func applyReal(b *builder.BuildPlan, c bCall, n int) (plan *workflow.Plan, perr 
 	case "checks:withaction":
 		b.AddChecks(builder.PostChecks, &workflow.Checks{Actions: []*workflow.Action{newAction(n)}})
 	case "block":
-		b.AddBlock(builder.BlockArgs{Name: fmt.Sprintf("b%d", n), Descr: "d", Concurrency: 2, ToleratedFailures: 1})
+		b.AddBlock(blockArgs(n))
 	case "block:noname":
 		b.AddBlock(builder.BlockArgs{Descr: "d"})
 	case "block:nodescr":
@@ -199,7 +219,9 @@ func (r *refBuilder) apply(c bCall, n int) (misuse bool) {
 		if !ok {
 			return bad()
 		}
-		b := &workflow.Block{Name: fmt.Sprintf("b%d", n), Descr: "d", Concurrency: 2, ToleratedFailures: 1}
+		ba := blockArgs(n)
+		b := &workflow.Block{Name: ba.Name, Descr: ba.Descr, Key: ba.Key, EntranceDelay: ba.EntranceDelay, ExitDelay: ba.ExitDelay,
+			Concurrency: ba.Concurrency, ToleratedFailures: ba.ToleratedFailures}
 		p.Blocks = append(p.Blocks, b)
 		r.chain = append(r.chain, b)
 	case c == "block:noname", c == "block:nodescr", c == "seq:nil", c == "seq:noname", c == "seq:nodescr",
